@@ -71,6 +71,8 @@ def funcs(sp, rng):
     yield 'KullbackLeiblerCrossEntropy', lambda: S.KullbackLeiblerCrossEntropy(sp), ('kl',)
     yield 'KullbackLeiblerCrossEntropy(prior).convex_conj', lambda: S.KullbackLeiblerCrossEntropy(sp, gp()).convex_conj, ('smooth', 'exp')
     yield 'Huber', lambda: S.Huber(sp, 0.3), ('c1',)
+    # documented limit case: without smoothing the Huber functional is the 1-norm (of the pointwise 2-norm on vector fields)
+    yield 'Huber(gamma=0)', lambda: S.Huber(sp, 0), ('nograd',)
     yield 'IndicatorSimplex', lambda: S.IndicatorSimplex(sp, 1.5), ('indicator',)
     yield 'IndicatorSumConstraint', lambda: S.IndicatorSumConstraint(sp, 1.5), ('indicator',)
     yield 'QuadraticForm(vector)', lambda: S.QuadraticForm(vector=g(), constant=0.5), ('smooth',)
@@ -245,6 +247,7 @@ def _pfuncs(sp, rng):
     yield 'GroupL1Norm(inf)', lambda: S.GroupL1Norm(sp, np.inf), ()
     yield 'GroupL1Norm(inf).convex_conj', lambda: S.GroupL1Norm(sp, np.inf).convex_conj, ('indicator',)
     yield 'Huber(pspace)', lambda: S.Huber(sp, 0.3), ('c1',)
+    yield 'Huber(pspace,gamma=0)', lambda: S.Huber(sp, 0), ('nograd',)
     yield 'SeparableSum(L1Norm,L2NormSquared)', lambda: S.SeparableSum(S.L1Norm(sp[0]), S.L2NormSquared(sp[1])), ()
     yield 'SeparableSum(Huber,3.0*L1Norm)', lambda: S.SeparableSum(S.Huber(sp[0], 0.3), 3.0 * S.L1Norm(sp[1])), ()
     yield 'SeparableSum(L1Norm,2)', lambda: S.SeparableSum(S.L1Norm(sp[0]), 2), ()
